@@ -1,10 +1,92 @@
 import Driver.Util
-open Lean Driver
+import GinjaxVerif.Model.C03
+open Lean Driver GinjaxVerif.C03
 
 namespace Driver.C03
 
-def handle (op : String) (_j : Json) : R Json := do
+def asMat (j : Json) : R Mat := asList (asList asInt) j
+
+def jMat (m : Mat) : Json := jList (jList jInt) m
+
+def parseOps (d : Nat) (j : Json) : R (List (SPerm d)) := do
+  let ms ← listF asMat j "ops"
+  ms.mapM fun m =>
+    match SPerm.ofMat? d m with
+    | some g => pure g
+    | none => throw "bad-op"
+
+/-- a flat row-major integer vector as a function on the index type -/
+def ofFlat {d M k : Nat} (data : Array Int) : FIdx d M k → Int :=
+  let idx := allIdx d M k
+  fun j => match idx.findIdx? (fun i => FIdx.eqb i j) with
+    | some n => data.getD n 0
+    | none => 0
+
+def handle (op : String) (j : Json) : R Json := do
   match op with
+  | "c03.family" =>
+    let d ← natF j "d"
+    let M ← natF j "M"
+    let k ← natF j "k"
+    let p ← natF j "p"
+    let ops ← parseOps d j
+    let raw := uniqueInvariantFilters ops M k p
+    pure (Json.mkObj [
+      ("family", jList (jList jInt) (raw.map primitive)),
+      ("raw", jList (jList jInt) raw),
+      ("order", jNat ops.length),
+      ("character_sum", jInt (characterSum ops M k p))])
+  | "c03.charsum" =>
+    let d ← natF j "d"
+    let M ← natF j "M"
+    let k ← natF j "k"
+    let p ← natF j "p"
+    let ops ← parseOps d j
+    pure (Json.mkObj [
+      ("order", jNat ops.length),
+      ("character_sum", jInt (characterSum ops M k p)),
+      ("fixed", jList (fun g => jNat (fixedPixels g M)) ops),
+      ("trace", jList (fun g => jInt g.trace) ops),
+      ("det", jList (fun g => jInt g.det) ops)])
+  | "c03.act" =>
+    let d ← natF j "d"
+    let M ← natF j "M"
+    let k ← natF j "k"
+    let p ← natF j "p"
+    let m ← field j "g" >>= asMat
+    let g ← match SPerm.ofMat? d m with
+      | some g => pure g
+      | none => throw "bad-op"
+    let data ← listF asInt j "data"
+    let idx := allIdx d M k
+    if data.length ≠ idx.length then throw "bad-shape"
+    let A : FIdx d M k → Int := ofFlat data.toArray
+    let mono := idx.map fun i => act g p A i
+    let dl := detLaplace d m
+    let lit := idx.map fun i => actLit g.entry dl p A i
+    let litJ := if lit.all Option.isSome then jList (fun o => jInt (o.getD 0)) lit else Json.null
+    pure (Json.mkObj [
+      ("mono", jList jInt mono), ("lit", litJ),
+      ("det", jInt g.det), ("det_laplace", jInt dl), ("trace", jInt g.trace),
+      ("perm", jList (fun a => jNat (g.perm a).val) (List.finRange d)),
+      ("sgn", jList (fun a => jInt (g.sgn a)) (List.finRange d)),
+      ("roundtrip", jBool (g.toMat == m))])
+  | "c03.bank" =>
+    let d ← natF j "d"
+    let ops ← parseOps d j
+    let Ms ← listF asNat j "Ms"
+    let ks ← listF asNat j "ks"
+    let ps ← listF asNat j "ps"
+    match assembleBank ops Ms ks ps with
+    | none => throw "no-filters-or-shape-mismatch"
+    | some l => pure (jList (fun e => Json.arr #[jNat e.1.1, jNat e.1.2, jNat e.2.1, jNat e.2.2]) l)
+  | "c03.ops" =>
+    let d ← natF j "d"
+    let which ← strF j "which"
+    match which with
+    | "all" => pure (jList jMat (allOperators d))
+    | "c2" => pure (jList jMat (c2Group d))
+    | _ => throw "bad-which"
   | _ => throw s!"unknown op {op}"
 
 end Driver.C03
